@@ -50,9 +50,33 @@ def run(s):
     K.item_grid(s, 3, pretties=(False,), full=False, inters=(False,))
     K.many_unresolvable(s)
     collection_reports(s, 60 if q else 3000)
+    repeated_id_deletes(s)
     K.idless_cases(s)
     K.fuzz(s, 120 if q else 12000, K.kind_weights(1, 1, 0.3), steps=(5, 25),
            shape_weights=(0.6, 0.25, 0.12, 0.03), selfref=0.1, direct=0.3)
+
+
+def repeated_id_deletes(s):
+    """Running orders / stories in which an ID occurs twice, and deletes that list it once, twice, three times."""
+    idx = 0
+    for names in (['A', 'X', 'B', 'X'], ['X', 'X', 'A'], ['A', 'X', 'X']):
+        ro_txt = gen.grid_ro(names, 'before', pretty=False)
+        for kind in ('roStoryDelete', 'EAStoryDelete'):
+            for ids in (['X'], ['X', 'X'], ['X', 'X', 'X'], ['X', 'A', 'X'], ['A', 'X'], ['gone', 'X', 'X']):
+                idx += 1
+                if s.mine(idx):
+                    K.run_case(s, ro_txt, kind, dict(ids=ids), ctx={'repeated-ids': 'story'})
+    for order in (['i', 'j', 'i'], ['i', 'i', 'j'], ['j', 'i', 'i']):
+        st = gen.simple_story('S', 0)
+        for k, n in enumerate(order):
+            st.append(B.item(n, 'copy %d' % k))
+        ro_txt = B.ro_doc('RO', 1, [gen.simple_story('Z', 2, item_prefix='i'), st], ed_start='2020-01-01T12:30:00')
+        for kind in ('roItemDelete', 'EAItemDelete'):
+            for ids in (['i'], ['i', 'i'], ['i', 'i', 'i'], ['i', 'j', 'i'], ['gone', 'i', 'i']):
+                idx += 1
+                if s.mine(idx):
+                    K.run_case(s, ro_txt, kind, dict(story_ref='S', ids=ids), ctx={'repeated-ids': 'item'})
+    s.hist['repeated_id_delete_cases'] = idx
 
 
 def collection_reports(s, n):
